@@ -12,7 +12,7 @@ CFG = dict(
     case_type="c13case",
     find_bad_from="Check.C13c.find_bad_from",
     go_tags="cl",
-    rigs=[dict(test="TestC13", timeout_quick=400, timeout_thorough=1800)],
+    rigs=[dict(test="TestC13", timeout_quick=400, timeout_thorough=2400)],
     reason_text={"1": "the real client's observation differs from every outcome of the Gallina model (Model/Client.v, all orders of internal rules)",
                  "3": "a unary call's result is not what the first delivered envelope carrying its id says",
                  "4": "a stream's messages are not, in order, the bodies of the delivered envelopes carrying its id",
@@ -20,12 +20,15 @@ CFG = dict(
                  "6": "hang: an operation is still pending at a quiescent point after the connection was closed",
                  "7": "a call started after the connection was closed did not fail at once",
                  "8": "panic in a client API call"},
-    rule="lock-step in synctest bubbles, real client vs scripted peer, two outstanding calls (unary+stream, stream+stream, unary+unary; "
-         "streams with Header and RecvMsg waiting): ALL response sequences of length 1 and 2 over the 18 envelope shapes of clientgen.go x "
-         "{call 0, call 1, unknown id} (quick: length-2 sequences with the kind pair rotating; thorough: every kind pair, plus ALL "
-         "length-3 sequences addressed to the two calls of the unary+stream pair), stats handler installed on every other case, each "
-         "closed by a read failure followed by RecvMsg / Trailer; plus 600 (thorough 6000) seeded random sequences of length 3..6. A "
-         "process death is attributed to the scenario whose begin marker was last (crash = violation).",
+    rule="lock-step in synctest bubbles, real client vs scripted peer, two outstanding calls (kind pairs unary+stream, stream+stream, "
+         "unary+unary; streams with Header and RecvMsg waiting), alphabet = the 18 envelope shapes of clientgen.go x {call 0, call 1, "
+         "unknown id} = 54 symbols. QUICK (9572 cases): ALL sequences of length 1 (54 x 3 kind pairs x stats on/off = 324) and ALL of "
+         "length 2 for EVERY kind pair (54^2 x 3 = 8748), + 500 seeded random sequences of length 3..6. THOROUGH (~163k cases): the "
+         "same, + ALL length-3 sequences addressed to the two calls (36^3 = 46656) for EVERY kind pair (139968), + 8000 length-4 "
+         "sequences sampled by the seed, + 6000 random of length 3..6. Stats handler installed on every other case; each case is closed "
+         "by a read failure followed by RecvMsg / Trailer. The full <= 4 space of the property's quantifier (54^4 x 3 = 2.5e7 lock-step "
+         "cases) is beyond any tier; length 3 with unknown ids in the thorough tier (54^3 x 3 = 4.7e5) is left out for time. A process "
+         "death is attributed to the scenario whose begin marker was last (crash = violation).",
     assumptions=["metadata is a token: decodable (value) or undecodable; payload bytes are a token, negative = bytes that do not unmarshal",
                  "the stats-handler path differs in nothing the model observes (D-13d fixed); both settings are run",
                  "quiescence = testing/synctest's durable blocking"],
